@@ -39,7 +39,9 @@ def status_text_ok(err, st, ext):
     if not isinstance(err, str) or not err:
         return False
     txt = SERVICE_STATUS.get(st)
-    named = (txt is not None and txt in err) or (f"{st:02x}" in err.lower())
+    # a text names a status when no other status has it (a catch-all text shared by a range of codes does not say which one it was)
+    unique = txt is not None and sum(1 for v in SERVICE_STATUS.values() if v == txt) == 1
+    named = (unique and txt in err) or (f"{st:02x}" in err.lower())
     if not named:
         return False
     if 1 <= len(ext) <= 2:
